@@ -12,6 +12,12 @@
     simulation walks add histories.
  3. C->S: seeded random expression sequences over the registers (all kinds, results stored back,
     extreme values, division by a missing zero, aliasing registers).
+ 4. (round 3) LiftedExt.tla: the same rule over other value types -- xoptional<xcomplex<double>>, nested
+    xoptional<xoptional<int>>, xoptional<double> / xmasked_value<double> compared bit for bit (both zeros and
+    infinities, NaN with both signs, denormal, largest finite), two-call expressions a + b * c -- and, advisory,
+    the neighbours: implicit xmasked_value -> xoptional conversion, json round trip, member equal(), missing<T>(),
+    free has_value / value.  TLC enumerates the cases, harness/lifted/ext.cpp executes them, TLC validates each.
+    The register machine also has a proxy-flag closure kind (optbr: xoptional<T&, bitset reference>).
  Every recorded trace is validated by TLC against LiftedTrace.tla (L1 is the oracle): has/visible,
  value, evaluation-counter delta, all registers, the referents of reference closures and which
  registers share a cell.
@@ -33,7 +39,7 @@ DRIVER = os.path.join(core.HARNESS, "lifted", "driver.cpp")
 NPARTS = 8
 M = 46000
 
-OPT_KINDS = ("opt", "optref", "optcr", "optvr", "dopt")
+OPT_KINDS = ("opt", "optref", "optcr", "optvr", "optbr", "dopt")
 MSK_KINDS = ("masked", "mref", "dmasked", "mo")
 PLAIN_KINDS = ("plain", "int", "dplain", "po")
 D_KINDS = ("dplain", "dopt", "dmasked")            # double-valued registers (real IEEE operands)
@@ -41,12 +47,13 @@ MIX_KINDS = ("mo", "po")                           # xmasked_value<xoptional<T>>
 NANV = 2147480000                                  # how a NaN is written in scripts and traces
 NAV = 2147470000                                   # a mo / po register whose inner optional is missing
 DTAB = list(range(1000000, 1000020))               # indices into the harness's table of remarkable doubles
-WRITABLE = ("opt", "optref", "optvr", "masked", "mref", "dopt", "dmasked", "mo")
+WRITABLE = ("opt", "optref", "optvr", "optbr", "masked", "mref", "dopt", "dmasked", "mo")
 D_NOFUNS = {"mod", "band", "bor", "bxor", "bitnot", "mod_eq", "band_eq", "bor_eq", "bxor_eq"}
-VALREF = ("optref", "optcr", "optvr", "mref")
-FLAGREF = ("optref", "optcr", "mref")
+VALREF = ("optref", "optcr", "optvr", "mref", "optbr")
+FLAGREF = ("optref", "optcr", "mref", "optbr")
+BITFLAG = ("optbr",)                               # the flag is a proxy for one bit of a caller's bitset
 # the constructor used to put a register of a given kind into a given abstract state
-CANON_HOW = {"plain": "plain", "int": "int", "opt": "opt2", "optref": "optref", "optcr": "optcr", "optvr": "optvr",
+CANON_HOW = {"plain": "plain", "int": "int", "opt": "opt2", "optref": "optref", "optcr": "optcr", "optvr": "optvr", "optbr": "optbr",
              "masked": "masked2", "mref": "mref", "dplain": "dplain", "dopt": "dopt2", "dmasked": "dmasked2",
              "mo": "mo2", "po": "po2"}
 ALT_HOW = {"opt": ["opt2", "optional_vv", "opt_from_ref", "opt_from_cref", "opt_from_vr", "opt_from_int", "opt_from_intmv"],
@@ -332,11 +339,11 @@ class Gen:
 
     def load(self, i, kind=None, has=None, v=None):
         r = self.r
-        kind = kind or r.choice(["opt", "optref", "masked", "mref", "plain", "opt", "optcr", "optvr", "int", "masked",
+        kind = kind or r.choice(["opt", "optref", "masked", "mref", "plain", "opt", "optcr", "optvr", "optbr", "int", "masked",
                                  "dopt", "dmasked", "dplain", "mo", "mo", "po"])
         hows = {"dplain": ["dplain"], "dopt": ["dopt2"], "dmasked": ["dmasked2"], "plain": ["plain"], "int": ["int"],
                 "opt": ["opt2", "opt2", "opt1", "optdef", "missing", "optional_vv", "opt_from_ref", "opt_from_cref", "opt_from_vr", "opt_from_int", "opt_from_intmv"],
-                "optref": ["optref", "optional_rr"], "optcr": ["optcr"], "optvr": ["optvr", "optional_rv"],
+                "optref": ["optref", "optional_rr"], "optcr": ["optcr"], "optvr": ["optvr", "optional_rv"], "optbr": ["optbr"],
                 "masked": ["masked2", "masked2", "masked1", "maskedf", "masked_value1", "masked_value2", "maskeddef"],
                 "mref": ["mref", "masked_value_rr"], "mo": ["mo2"], "po": ["po2"]}[kind]
         how = r.choice(hows) if has is None else CANON_HOW[kind]
@@ -366,7 +373,7 @@ class Gen:
             return None
         j = r.choice(srcs)
         i = r.choice([k for k in range(1, self.n + 1) if k != j])
-        hows = ["optvr"] + (["optref", "optcr", "mref", "mref", "optref"] if self.kind[j] in FLAGREF else [])
+        hows = ["optvr"] + (["optref", "optcr", "mref", "mref", "optref"] if self.kind[j] in FLAGREF and self.kind[j] not in BITFLAG else [])
         how = r.choice(hows)
         has = r.random() < 0.6 if how == "optvr" else True
         self.kind[i] = how
@@ -800,25 +807,28 @@ def build_driver(ctx, tag="", cxx=None, opt="-O0", ops_def=None, no_house=False)
 
 
 # ------------------------------------------------------------------ overload probes (when the harness does not build)
-KIND_TYPE = {"plain": "Probe", "int": "int", "opt": "Opt", "optref": "ORef", "optcr": "OCRef", "optvr": "OVRef", "masked": "Msk",
+KIND_TYPE = {"plain": "Probe", "int": "int", "opt": "Opt", "optref": "ORef", "optcr": "OCRef", "optvr": "OVRef", "optbr": "OBRef", "masked": "Msk",
              "mref": "MRef", "dplain": "double", "dopt": "DOpt", "dmasked": "DMsk", "mo": "MO", "po": "Opt"}
 KIND_CPP = {"plain": "Probe", "int": "int", "opt": "xoptional<Probe, bool>", "optref": "xoptional<Probe&, bool&>",
-            "optcr": "xoptional<const Probe&, const bool&>", "optvr": "xoptional<Probe&, bool>", "masked": "xmasked_value<Probe, bool>",
+            "optcr": "xoptional<const Probe&, const bool&>", "optvr": "xoptional<Probe&, bool>",
+            "optbr": "xoptional<Probe&, xdynamic_bitset<unsigned char>::reference>", "masked": "xmasked_value<Probe, bool>",
             "mref": "xmasked_value<Probe&, bool&>", "dplain": "double", "dopt": "xoptional<double, bool>", "dmasked": "xmasked_value<double, bool>",
             "mo": "xmasked_value<xoptional<Probe, bool>, bool>", "po": "xoptional<Probe, bool>"}
-FAMILIES = [("opt", ["plain", "int", "opt", "optref", "optcr", "optvr"], {"opt", "optref", "optcr", "optvr"}),
+FAMILIES = [("opt", ["plain", "int", "opt", "optref", "optcr", "optvr", "optbr"], {"opt", "optref", "optcr", "optvr", "optbr"}),
             ("masked", ["plain", "int", "masked", "mref"], {"masked", "mref"}),
             ("dopt", ["dplain", "dopt"], {"dopt"}), ("dmasked", ["dplain", "dmasked"], {"dmasked"}),
             ("mix", ["mo", "po"], {"mo"})]
 PROBE_HEAD = """// generated by checks/c04.py: one lifted operation, every operand-kind pattern, each an explicit instantiation
 #include <xtl/xoptional.hpp>
 #include <xtl/xmasked_value.hpp>
+#include <xtl/xdynamic_bitset.hpp>
 #include "probe.hpp"
 #include <cmath>
 using pr::Probe;
 using Opt = xtl::xoptional<Probe, bool>; using ORef = xtl::xoptional<Probe&, bool&>; using OCRef = xtl::xoptional<const Probe&, const bool&>;
 using OVRef = xtl::xoptional<Probe&, bool>; using Msk = xtl::xmasked_value<Probe, bool>; using MRef = xtl::xmasked_value<Probe&, bool&>;
 using DOpt = xtl::xoptional<double, bool>; using DMsk = xtl::xmasked_value<double, bool>; using MO = xtl::xmasked_value<Opt, bool>;
+using BitSet = xtl::xdynamic_bitset<unsigned char>; using OBRef = xtl::xoptional<Probe&, BitSet::reference>;
 template <class X> void sink(X&&) {}
 """
 
@@ -883,8 +893,8 @@ template <class W, class V, class F> int core_o(V&& v, F&& f) { W w(static_cast<
 template <class W, class V, class F> int core_m(V&& v, F&& f) { W w(static_cast<V&&>(v), static_cast<F&&>(f)); const W& c = w; sink(c.value()); return bool(c.visible()) ? 1 : 0; }
 int run()
 {
-    Probe p(1); bool b = true; double d = 1;
-    return core_o<Opt>(Probe(1), true) + core_o<ORef>(p, b) + core_o<OCRef>(p, b) + core_o<OVRef>(p, true) + core_o<DOpt>(1.0, true)
+    Probe p(1); bool b = true; double d = 1; BitSet bs(3, true);
+    return core_o<OBRef>(p, bs[1]) + core_o<Opt>(Probe(1), true) + core_o<ORef>(p, b) + core_o<OCRef>(p, b) + core_o<OVRef>(p, true) + core_o<DOpt>(1.0, true)
          + core_m<Msk>(Probe(1), true) + core_m<MRef>(p, b) + core_m<DMsk>(d, true) + core_m<MO>(Opt(Probe(1), true), true);
 }
 """
@@ -941,14 +951,14 @@ def probe_overloads(ctx, t):
     sp = os.path.join(pdir, "select.cpp")
     src, n, slines = SELECT_PROBE, SELECT_PROBE.count("\n"), {}
     for cnd in ("bool", "OB"):
-        for a in ("plain", "int", "opt", "optref", "optcr", "optvr"):
-            for b in ("plain", "int", "opt", "optref", "optcr", "optvr"):
+        for a in ("plain", "int", "opt", "optref", "optcr", "optvr", "optbr"):
+            for b in ("plain", "int", "opt", "optref", "optcr", "optvr", "optbr"):
                 if {a, b} <= {"plain", "int"} and (cnd == "bool" or {a, b} == {"int"}):
                     continue
                 src += "template void use<%s, %s, %s>(const %s&, const %s&, const %s&);\n" % (cnd, KIND_TYPE[a], KIND_TYPE[b], cnd, KIND_TYPE[a], KIND_TYPE[b])
                 n += 1
                 slines[n] = ("select", cnd, a, b)
-    for a in ("opt", "optref", "optcr", "optvr"):
+    for a in ("opt", "optref", "optcr", "optvr", "optbr"):
         src += "template void vor<%s, Probe>(const %s&, const Probe&);\n" % (KIND_TYPE[a], KIND_TYPE[a])
         n += 1
         slines[n] = ("value_or", a)
@@ -1208,8 +1218,154 @@ def nominal_drift(ctx, traces):
         ctx.drift.append("%s %s with all operands present evaluated the underlying operation %d times (%d calls)" % (op, f, d, n))
 
 
+# ------------------------------------------------------------------ second part: other value types and the neighbours (LiftedExt.tla)
+EXT_SRC = os.path.join(core.HARNESS, "lifted", "ext.cpp")
+EXT_ADVISORY = {"Conv", "JsonTrip", "EqualM", "Factory"}      # documented behaviour beside the statement
+JSON_INC = "/root/miniconda/include"
+
+
+def ext_build(ctx):
+    """(binary or None, compiler output).  Built with the json round trip when nlohmann_json is installed."""
+    out = os.path.join(ctx.work, "lifted_ext")
+    flags = ["-O0", "-g1", "-I", os.path.join(core.HARNESS, "lifted")]
+    if os.path.exists(os.path.join(JSON_INC, "nlohmann", "json.hpp")):
+        flags += ["-DHAVE_NLOHMANN_JSON", "-isystem", JSON_INC]
+    rc, o = core.try_build(ctx, EXT_SRC, out, flags=flags, asan=True)
+    return (out if rc == 0 else None), o
+
+
+def ext_run(ctx, drv, cases, trace_path):
+    """Run the cases; a crash ends with a Crash line for the case during which it happened, the driver goes on behind it."""
+    env = dict(os.environ); env.update(core.ASAN_ENV)
+    pos, out, restarts = 0, [], 0
+    while pos < len(cases) and restarts < 30:
+        try:
+            p = subprocess.run([drv], input=("\n".join(cases[pos:]) + "\n").encode(), stdout=subprocess.PIPE, stderr=subprocess.PIPE, env=env, timeout=900)
+            rc, so, se = p.returncode, p.stdout.decode(errors="replace"), p.stderr.decode(errors="replace")
+        except subprocess.TimeoutExpired as ex:
+            rc, so, se = 124, (ex.stdout or b"").decode(errors="replace"), "[time-out]"
+        if rc == 3:
+            raise MachineryError("ext harness rejected its script: %s" % se[-400:])
+        got = [l for l in so.split("\n") if l.strip() and not l.startswith('{"op":"Crash"')]
+        if got:
+            try:
+                json.loads(got[-1])
+            except Exception:
+                got = got[:-1]
+        out.extend(got)
+        pos += len(got)
+        if pos >= len(cases):
+            break
+        out.append(json.dumps({"op": "Crash", "a": {"call": json.loads(cases[pos]), "why": "exit-%s" % rc}}, separators=(",", ":")))
+        pos += 1
+        restarts += 1
+    with open(trace_path, "w") as f:
+        f.write("\n".join(out) + "\n")
+    return restarts
+
+
+def ext_validate(ctx, trace_path, max_rej=10):
+    """[(event, expected)] of the rejected cases (each case is independent: validation goes on behind a rejection)."""
+    with open(trace_path) as f:
+        cur = [l.rstrip("\n") for l in f if l.strip()]
+    rej, n = [], 0
+    while cur and len(rej) < max_rej:
+        n += 1
+        p = "%s.part%d" % (trace_path, n)
+        with open(p, "w") as f:
+            f.write("\n".join(cur) + "\n")
+        r = core.validate_trace(ctx, "LiftedExtTrace", "LiftedExtTrace.cfg", p, explain=False)
+        ctx.cov["events_validated"] += r["matched"]
+        if r["accepted"]:
+            break
+        k = r["fail_line"]
+        expected = core.explain_event(ctx, "LiftedExtTrace", "LiftedExtTrace.cfg", [cur[k]], 0) if len(rej) < 4 else "(not explained)"
+        rej.append((json.loads(cur[k]), expected))
+        cur = cur[k + 1:]
+    return rej
+
+
+def ext_case_of(evj):
+    d = evj.get("a", {}).get("call") if evj.get("op") == "Crash" else evj
+    return {"op": d.get("op"), "a": d.get("a")}
+
+
+def ext_stage(ctx, q):
+    """LiftedExt.tla: TLC enumerates the cases (value type x operation x lifted/plain pattern x presence pattern x values),
+    the harness executes each on the real types, TLC validates every recorded case."""
+    r = core.tlc(ctx, "LiftedExtMC", "LiftedExt_quick.cfg" if q else "LiftedExt_thorough.cfg", name="ext-enumerate", timeout=1200,
+                 workers=min(core.NCPU, 2 if q else 4), heap="6g")
+    if r["violated"]:
+        raise MachineryError("LiftedExt.tla violates its own law %s (oracle bug), see %s" % (r["violated"], r["outfile"]))
+    seen, cases = set(), []
+    for line in r["out"].splitlines():
+        if line.startswith('"@X@'):
+            c = json.loads(line)[3:]
+            if c not in seen:
+                seen.add(c); cases.append(c)
+    if len(cases) != r["distinct"] - 1:
+        raise MachineryError("ext enumeration: TLC found %d cases but %d were written out, see %s" % (r["distinct"] - 1, len(cases), r["outfile"]))
+    r["out"] = ""
+    ctx.cov["transitions"] += len(cases)
+    ctx.cov["states"] += r["distinct"]
+    per = {}
+    for c in cases:
+        d = json.loads(c)
+        key = "%s %s" % (d["op"], d["a"].get("ty", d["a"].get("fam", d["a"].get("how", ""))))
+        per[key] = per.get(key, 0) + 1
+    ctx.notes["ext_cases_per_family"] = per
+    ctx.log("TLC LiftedExt: %d cases (%d families), %.1fs" % (len(cases), len(per), r["wall_s"]))
+    drv, out = ext_build(ctx)
+    if drv is None:
+        ctx.drift.append("ADVISORY the second C04 harness (other value types: xoptional<xcomplex<double>>, nested xoptional, bit-exact doubles; "
+                         "masked -> optional conversion, json, equal()) does not build against this tree; its cases are skipped: %s"
+                         % " | ".join(l.strip() for l in out.splitlines() if "error" in l)[:600])
+        ctx.notes["ext_harness"] = "does not build"
+        return
+    rnd = random.Random(ctx.seed * 31 + 7)
+    rnd.shuffle(cases)                 # (the order of independent cases is the seed's)
+    tp = os.path.join(ctx.sub("ext"), "ext.ndjson")
+    restarts = ext_run(ctx, drv, cases, tp)
+    rej = ext_validate(ctx, tp)
+    ctx.cov["traces_validated_against_impl"] += 1
+    ctx.notes["ext_cases_executed"] = len(cases)
+    ctx.log("ext: %d cases executed%s, %d rejected" % (len(cases), " (%d crashes)" % restarts if restarts else "", len(rej)))
+    nconf = 0
+    for evj, expected in rej:
+        case = ext_case_of(evj)
+        if case["op"] in EXT_ADVISORY:
+            ctx.drift.append("ADVISORY %s (documented behaviour beside the property statement) deviates from LiftedExt.tla: %s ; %s"
+                             % (case["op"], json.dumps(evj)[:400], expected[:300]))
+            continue
+        if nconf < 3:                   # a rejection is reported only if it repeats
+            nconf += 1
+            cp = os.path.join(ctx.sub("ext"), "confirm-%d.ndjson" % nconf)
+            ext_run(ctx, drv, [json.dumps(case, separators=(",", ":"))], cp)
+            if core.validate_trace(ctx, "LiftedExtTrace", "LiftedExtTrace.cfg", cp, explain=False)["accepted"]:
+                raise MachineryError("non-reproducible rejection of the ext case %s" % json.dumps(case))
+        what = "call crashed (%s): %s" % (evj["a"].get("why"), json.dumps(case)) if evj.get("op") == "Crash" else json.dumps(evj)[:700]
+        ctx.violation("case rejected by LiftedExtTrace: %s ; spec expected: %s" % (what, expected[:900]), replay_lines=[{"ext": 1}, case])
+
+
+def ext_replay(ctx, path, lines):
+    drv, out = ext_build(ctx)
+    if drv is None:
+        raise MachineryError("ext harness does not build: %s" % out[-2000:])
+    tp = os.path.join(ctx.work, "replay-ext.ndjson")
+    ext_run(ctx, drv, [json.dumps(l, separators=(",", ":")) for l in lines if "ext" not in l], tp)
+    r = core.validate_trace(ctx, "LiftedExtTrace", "LiftedExtTrace.cfg", tp, explain=False)
+    if r["accepted"]:
+        print("replay accepted: the recorded case now conforms to LiftedExt.tla")
+        return 0
+    print("VIOLATION property=C04 replay=%s" % path)
+    print("  rejected: %s" % open(tp).read().splitlines()[r["fail_line"]][:600])
+    return 1
+
+
 def replay(ctx, path):
     lines = [l for l in core.read_ndjson(path) if "_meta" not in l]
+    if lines and "ext" in lines[0]:
+        return ext_replay(ctx, path, lines)
     if lines and "probe" in lines[0]:
         t = parse_ops_def()
         pr = lines[0]["probe"]
@@ -1332,7 +1488,7 @@ def run(ctx):
     ctx.notes["lifted_operations_in_table"] = nops
 
     # ---- build the harness in the background while TLC runs
-    pool = ThreadPoolExecutor(max_workers=3)
+    pool = ThreadPoolExecutor(max_workers=4)
 
     def build_main():
         try:
@@ -1356,6 +1512,8 @@ def run(ctx):
                                     "L1 multi-step exploration: propagation, never-evaluated, equality/select/value_or laws, shared cells coherent",
                                     coverage=not q, workers=min(core.NCPU, 4 if q else 6), timeout=1500)
     fut_mc = pool.submit(model_check)
+    # ---- 1b. the second part (other value types, neighbours): enumerate, execute, validate -- in the background
+    fut_ext = pool.submit(ext_stage, ctx, q)
 
     # ---- 2. S->C: every single call, enumerated by TLC
     rnd = random.Random(ctx.seed)
@@ -1372,8 +1530,8 @@ def run(ctx):
                                  % (cfg, r3["distinct"] - int(m.group(1)) if m else "?", len(es), r3["outfile"]))
         r3["out"] = ""
         return cfg, es, r3
-    cfgs = ["Lifted_s2c.cfg", "Lifted_s2c_house.cfg", "Lifted_s2c_double_quick.cfg", "Lifted_s2c_dnum.cfg", "Lifted_s2c_mix_quick.cfg", "Lifted_s2c_alias_quick.cfg"] if q else \
-           ["Lifted_s2c_thorough.cfg", "Lifted_s2c_closures.cfg", "Lifted_s2c_house.cfg", "Lifted_s2c_double.cfg", "Lifted_s2c_dnum.cfg", "Lifted_s2c_mix.cfg", "Lifted_s2c_alias.cfg"]
+    cfgs = ["Lifted_s2c.cfg", "Lifted_s2c_house.cfg", "Lifted_s2c_double_quick.cfg", "Lifted_s2c_dnum.cfg", "Lifted_s2c_mix_quick.cfg", "Lifted_s2c_alias_quick.cfg", "Lifted_s2c_bits_quick.cfg"] if q else \
+           ["Lifted_s2c_thorough.cfg", "Lifted_s2c_closures.cfg", "Lifted_s2c_house.cfg", "Lifted_s2c_double.cfg", "Lifted_s2c_dnum.cfg", "Lifted_s2c_mix.cfg", "Lifted_s2c_alias.cfg", "Lifted_s2c_bits.cfg"]
     edges = []
     with ThreadPoolExecutor(max_workers=max(1, min(4, core.NCPU // 2))) as ex:
         for cfg, es, r3 in ex.map(enumerate_calls, cfgs):
@@ -1415,6 +1573,7 @@ def run(ctx):
                 except BuildFailed as e2:
                     err = e2.out
         if drv is None:
+            fut_ext.result()
             pool.shutdown()
             if not ctx.violations:
                 raise MachineryError("harness does not compile and no overload probe explains it:\n%s" % (err or "")[-4000:])
@@ -1516,6 +1675,7 @@ def run(ctx):
     rejections = v.run(traces)
     report(ctx, rejections, {"gcc": drv, "clang": cdrv})
 
+    fut_ext.result()
     # ---- the model-checking job (ran in the background)
     r = fut_mc.result()
     if r["violated"]:
@@ -1540,7 +1700,10 @@ def finish(ctx, q, nops):
              "operand values %s (doubles: small integers, NaN, 0.5, +inf%s); each transition is one call on the real "
              "xoptional/xmasked_value objects over a counting operand type and TLC compares has/visible, value, evaluation-counter delta, "
              "all registers, reference-closure referents and shared cells; for doubles the value must also be what the same operation gives "
-             "on the underlying doubles. Plus TLC simulation walks and seeded random expression sequences (values up to +-46000, results stored back)."
+             "on the underlying doubles. Plus TLC simulation walks and seeded random expression sequences (values up to +-46000, results stored back). "
+             "Second part (LiftedExt.tla): TLC enumerates operation x lifted/plain pattern x presence pattern x table values for "
+             "xoptional<xcomplex<double>>, xoptional<xoptional<int>>, xoptional<double> and xmasked_value<double> with bit-exact comparison "
+             "(+-0, +-inf, +-NaN, denormal, max), the two-call expressions a+b*c, a+(b-c), a*(b-c), a*(b*c), compound assignments; each case executed once."
              % (nops, "" if q else "/optcr/optvr", "{-1,0,2}" if q else "{-46000,-1,0,2,3}", "" if q else ", -inf, 1/3, 1e308, a denormal, -0.0"),
         assumptions=["the operand type Probe (harness/lifted/probe.hpp) and Lifted.tla's Apply1/2/3 define the same toy algebra",
                      "for double operands the harness records, next to every lifted result, the result of the same operation on the underlying "
@@ -1551,8 +1714,12 @@ def finish(ctx, q, nops):
                      "caller's writes to referents; other constructors / factories / converting constructors, free / rvalue / conversion / stream "
                      "accessors, plain assignment and swap are advisory (MODEL-DRIFT); validation resumes behind an advisory rejection",
                      "configurations: g++ -O0 with AddressSanitizer in both tiers, clang++ -O2 (single-call scripts) in the thorough tier; NDEBUG and "
-                     "XTL_NO_EXCEPTIONS do not occur in the two headers; json (xjson.hpp) and the implicit xmasked_value -> value_type / xoptional "
-                     "conversion are not modelled"],
+                     "XTL_NO_EXCEPTIONS do not occur in the two headers",
+                     "LiftedExt: a present result must equal, bit for bit, what the harness computes with the same expression on the underlying values "
+                     "(two NaN results match whatever their sign / payload); xcomplex and nested optionals are enumerated with every operand lifted (xtl's "
+                     "common_optional_t offers no mixed lifted / plain form for class types whose value_type is another type); the implicit "
+                     "xmasked_value -> xoptional conversion, the json round trip, the member equal(), missing<T>() and the free accessors on plain values "
+                     "are advisory (MODEL-DRIFT); std::hash is not provided for either class; xoptional<half> arithmetic does not instantiate"],
         exhaustive=False)
 
 
